@@ -65,6 +65,18 @@ Out == /\ Ev("out") /\ phase = "running"
        /\ nDel' = nDel + 1 /\ lcOf' = Append(lcOf, [lc |-> Cur.lc, ecu |-> Cur.ecu, idx |-> Cur.idx])
        /\ UNCHANGED <<case, phase, hdr, inSeq, inBoot, tab, gotListing, viol, kfUsed>>
 
+\* huge cases (hdr.kind = "big": more than 10^6 messages queued while a lifecycle is unconfirmed): the driver records one summary
+\* event instead of 10^6 `in` / `out` events - counts only: messages delivered, position of the first delivery that is not the
+\* next input (-1 = none), deliveries that differ from their input in more than the assignment, deliveries without lifecycle id,
+\* deliveries whose lifecycle was not published with the message's ECU at that moment, and deliveries per (lifecycle, ECU).
+\* The counts per (lifecycle, ECU) are kept in lcOf (field idx = count) for the table contract BigTable.
+BigOut == /\ Ev("big_out") /\ phase = "running" /\ hdr.kind = "big" /\ nDel = 0 /\ lcOf = <<>>
+          /\ (Check = "C05" => /\ Cur.n_out = hdr.n /\ Cur.first_misordered = -1 /\ Cur.not_intact = 0 /\ Cur.unassigned = 0)
+          /\ (Check = "C06" => Cur.invisible = 0)
+          /\ nDel' = Cur.n_out
+          /\ lcOf' = [i \in 1..Len(Cur.per) |-> [lc |-> Cur.per[i].lc, ecu |-> Cur.per[i].ecu, idx |-> Cur.per[i].n]]
+          /\ UNCHANGED <<case, phase, hdr, inSeq, inBoot, tab, gotListing, viol, kfUsed>>
+
 CountDel(id) == Cardinality({i \in 1..Len(lcOf) : lcOf[i].lc = id})
 RECURSIVE SumNr(_)
 SumNr(t) == IF t = <<>> THEN 0 ELSE Head(t).nr + SumNr(Tail(t))
@@ -98,7 +110,18 @@ Exact(t) ==
           /\ e.ecu = Boots[b].ecu
           /\ e.ongrid /\ e.start = StartEst(b) /\ e.end = EndEst(b)       \* start = boot time + delay, end = start + max ts
 
-Table == /\ Ev("table") /\ phase = "running"
+RECURSIVE SumCnt(_, _)
+SumCnt(q, id) == IF q = <<>> THEN 0 ELSE (IF Head(q).lc = id THEN Head(q).idx ELSE 0) + SumCnt(Tail(q), id)
+BigTable == /\ Ev("table") /\ phase = "running" /\ hdr.kind = "big"
+            /\ (Check = "C05" => nDel = hdr.n /\ AssignedOwnEcu(Cur.t))
+            /\ (Check = "C07" => /\ \A i \in 1..Len(Cur.t) : Cur.t[i].nr >= 1 /\ Cur.t[i].nr = SumCnt(lcOf, Cur.t[i].id)
+                                 /\ \A i, j \in 1..Len(Cur.t) : i # j => Cur.t[i].id # Cur.t[j].id
+                                 /\ SumNr(Cur.t) = nDel
+                                 /\ \A i \in 1..Len(lcOf) : lcOf[i].lc \in Ids(Cur.t))
+            /\ tab' = Cur.t /\ phase' = "table"
+            /\ UNCHANGED <<case, hdr, inSeq, inBoot, nDel, lcOf, gotListing, viol, kfUsed>>
+
+Table == /\ Ev("table") /\ phase = "running" /\ hdr.kind # "big"
          /\ (Check = "C05" => nDel = Len(inSeq) /\ AssignedOwnEcu(Cur.t))
          /\ (Check = "C07" /\ ~hdr.prepop => TableOk(Cur.t))
          /\ (Check = "C08" /\ hdr.kind = "clean" => Exact(Cur.t))
@@ -139,7 +162,7 @@ PanicOther == /\ Ev("panic") /\ phase = "running" /\ Check # "C05"
               /\ phase' = "ended"
               /\ UNCHANGED <<case, hdr, inSeq, inBoot, nDel, lcOf, tab, gotListing, viol, kfUsed>>
 
-Matches == ENABLED In \/ ENABLED Out \/ ENABLED Table \/ ENABLED KF_Table \/ ENABLED Listing \/ ENABLED ListingPanic
+Matches == ENABLED In \/ ENABLED Out \/ ENABLED BigOut \/ ENABLED Table \/ ENABLED BigTable \/ ENABLED KF_Table \/ ENABLED Listing \/ ENABLED ListingPanic
            \/ ENABLED End \/ ENABLED PanicOther
 Reject == /\ l <= Len(Rec) /\ Cur.ev # "reset" /\ phase \in {"running", "table"} /\ ~Matches
           /\ PrintT(<<"CASE_REJECTED", case, l, ToJson(Cur)>>)
@@ -150,7 +173,7 @@ SkipRest == /\ l <= Len(Rec) /\ Cur.ev # "reset" /\ phase \in {"rejected", "ende
             /\ (IF phase = "ended" /\ Cur.ev # "end" THEN viol' = viol \cup {case} /\ phase' = "rejected" ELSE UNCHANGED <<viol, phase>>)
             /\ UNCHANGED <<case, hdr, inSeq, inBoot, nDel, lcOf, tab, gotListing, kfUsed>>
 
-Next == Reset \/ In \/ Out \/ Table \/ KF_Table \/ Listing \/ ListingPanic \/ End \/ PanicOther \/ Reject \/ SkipRest
+Next == Reset \/ In \/ Out \/ BigOut \/ Table \/ BigTable \/ KF_Table \/ Listing \/ ListingPanic \/ End \/ PanicOther \/ Reject \/ SkipRest
 Spec == Init /\ [][Next]_vars
 
 AtEnd == l = Len(Rec) + 1
